@@ -261,54 +261,54 @@ theorem string_in_cfi (t : Buf) :
 /-! ### character output -/
 
 /-- `std::string &` intent(out) into `character(len=L)`: the caller holds `take L (s ++ blanks)` -/
-theorem string_out_buf (v : Buf) (s : List Nat) :
+theorem string_out_buf (v : Buf) (s : List Nat) (hs : s.length < 2147483648) :
     runArg Kind.stringOut.fspec (Kind.stringOut.cspec false) true (.buf v) (.arg fun _ => .str s)
       = .ok ⟨some (.str []), .buf (fassign v.length s), 0⟩ := by
   have h := strCopy_counted v [] (s ++ [NUL]) s.length (by simp)
   simp only [List.append_nil, List.take_left'] at h
-  run_simp [h]
+  run_simp [h, narrow32_of_lt _ hs]
 
-theorem string_out_cfi (v : Buf) (s : List Nat) :
+theorem string_out_cfi (v : Buf) (s : List Nat) (hs : s.length < 2147483648) :
     runArg Kind.stringOut.fspec (Kind.stringOut.cspec true) true (.buf v) (.arg fun _ => .str s)
       = .ok ⟨some (.str []), .buf (fassign v.length s), 0⟩ := by
   have h := strCopy_counted v [] (s ++ [NUL]) s.length (by simp)
   simp only [List.append_nil, List.take_left'] at h
-  run_simp [h]
+  run_simp [h, narrow32_of_lt _ hs]
 
 /-- `std::string &` intent(inout): trimmed text in, `take L (s ++ blanks)` out -/
-theorem string_inout_buf (t : Buf) (f : List Nat → List Nat) :
+theorem string_inout_buf (t : Buf) (f : List Nat → List Nat) (hs : (f (rtrim t)).length < 2147483648) :
     runArg Kind.stringInout.fspec (Kind.stringInout.cspec false) true (.buf t)
         (.arg fun v => match v with | .str x => .str (f x) | v => v)
       = .ok ⟨some (.str (rtrim t)), .buf (fassign t.length (f (rtrim t))), 0⟩ := by
   have h := strCopy_counted t [] (f (rtrim t) ++ [NUL]) (f (rtrim t)).length (by simp)
   simp only [List.append_nil, List.take_left'] at h
-  run_simp [rtrim_length_le, ← rtrim_prefix, h]
+  run_simp [rtrim_length_le, ← rtrim_prefix, h, narrow32_of_lt _ hs]
 
-theorem string_inout_cfi (t : Buf) (f : List Nat → List Nat) :
+theorem string_inout_cfi (t : Buf) (f : List Nat → List Nat) (hs : (f (rtrim t)).length < 2147483648) :
     runArg Kind.stringInout.fspec (Kind.stringInout.cspec true) true (.buf t)
         (.arg fun v => match v with | .str x => .str (f x) | v => v)
       = .ok ⟨some (.str (rtrim t)), .buf (fassign t.length (f (rtrim t))), 0⟩ := by
   have h := strCopy_counted t [] (f (rtrim t) ++ [NUL]) (f (rtrim t)).length (by simp)
   simp only [List.append_nil, List.take_left'] at h
-  run_simp [rtrim_length_le, ← rtrim_prefix, h]
+  run_simp [rtrim_length_le, ← rtrim_prefix, h, narrow32_of_lt _ hs]
 
 /-- `char *` intent(out) (`c_char_*_out_buf`): the library writes a C string `str` into the
     caller's own `L` bytes; afterwards the variable holds `str` blank padded.  The documented
     precondition (C10) is that the string and its NUL fit: `str.length < L`. -/
 theorem char_out_buf (str post : Buf) (h0 : ∀ c ∈ str, c ≠ NUL) (v : Buf)
-    (hv : v.length = (str ++ NUL :: post).length) :
+    (hv : v.length = (str ++ NUL :: post).length) (hfit : str.length < 2147483648) :
     runArg Kind.charOut.fspec (Kind.charOut.cspec false) true (.buf v) (.arg fun _ => .buf (str ++ NUL :: post))
       = .ok ⟨some (.buf v), .buf (fassign v.length str), 0⟩ := by
-  have h := strBlankFill_spec str post v.length h0 (by simp at hv; omega) (by omega)
+  have h := strBlankFill_spec str post v.length h0 (by simp at hv; omega) (by omega) hfit
   have hd : (str ++ NUL :: post).drop v.length = [] := List.drop_eq_nil_of_le (by omega)
   rw [hd, List.append_nil] at h
   run_simp [h]
 
 theorem char_out_cfi (str post : Buf) (h0 : ∀ c ∈ str, c ≠ NUL) (v : Buf)
-    (hv : v.length = (str ++ NUL :: post).length) :
+    (hv : v.length = (str ++ NUL :: post).length) (hfit : str.length < 2147483648) :
     runArg Kind.charOut.fspec (Kind.charOut.cspec true) true (.buf v) (.arg fun _ => .buf (str ++ NUL :: post))
       = .ok ⟨some (.buf v), .buf (fassign v.length str), 0⟩ := by
-  have h := strBlankFill_spec str post v.length h0 (by simp at hv; omega) (by omega)
+  have h := strBlankFill_spec str post v.length h0 (by simp at hv; omega) (by omega) hfit
   have hd : (str ++ NUL :: post).drop v.length = [] := List.drop_eq_nil_of_le (by omega)
   rw [hd, List.append_nil] at h
   run_simp [h]
@@ -316,29 +316,29 @@ theorem char_out_cfi (str post : Buf) (h0 : ∀ c ∈ str, c ≠ NUL) (v : Buf)
 /-- `char *` intent(inout): the library receives the trimmed, terminated text in a block of `L+1`
     bytes, leaves a C string there, and the caller holds it truncated / blank padded to `L`;
     the block is released -/
-theorem char_inout_buf (t str post : Buf) (h0 : ∀ c ∈ str, c ≠ NUL) :
+theorem char_inout_buf (t str post : Buf) (h0 : ∀ c ∈ str, c ≠ NUL) (hfit : str.length < 2147483648) :
     runArg Kind.charInout.fspec (Kind.charInout.cspec false) true (.buf t) (.arg fun _ => .buf (str ++ NUL :: post))
       = .ok ⟨some (.buf (rtrim t ++ NUL :: List.replicate (t.length - (rtrim t).length) UNINIT)),
              .buf (fassign t.length str), 0⟩ := by
-  have h := strCopy_cstring t [] str post h0
+  have h := strCopy_cstring t [] str post h0 hfit
   simp only [List.append_nil] at h
   run_simp [(strAlloc_inout t).1, h]
 
-theorem char_inout_cfi (t str post : Buf) (h0 : ∀ c ∈ str, c ≠ NUL) :
+theorem char_inout_cfi (t str post : Buf) (h0 : ∀ c ∈ str, c ≠ NUL) (hfit : str.length < 2147483648) :
     runArg Kind.charInout.fspec (Kind.charInout.cspec true) true (.buf t) (.arg fun _ => .buf (str ++ NUL :: post))
       = .ok ⟨some (.buf (rtrim t ++ NUL :: List.replicate (t.length - (rtrim t).length) UNINIT)),
              .buf (fassign t.length str), 0⟩ := by
-  have h := strCopy_cstring t [] str post h0
+  have h := strCopy_cstring t [] str post h0 hfit
   simp only [List.append_nil] at h
   run_simp [(strAlloc_inout t).2, (strAlloc_inout t).1, h]
 
 /-! ### results copied into a `character(len=L)` result variable -/
 
 /-- `char *` result (`+len(L)` or F_string_result_as_arg): the C string, truncated / blank padded -/
-theorem char_result_buf (v str post : Buf) (h0 : ∀ c ∈ str, c ≠ NUL) (cfi : Bool) :
+theorem char_result_buf (v str post : Buf) (h0 : ∀ c ∈ str, c ≠ NUL) (hfit : str.length < 2147483648) (cfi : Bool) :
     runArg Kind.charResult.fspec (Kind.charResult.cspec cfi) true (.buf v) (.result (.buf (str ++ NUL :: post)))
       = .ok ⟨none, .buf (fassign v.length str), 0⟩ := by
-  have h := strCopy_cstring v [] str post h0
+  have h := strCopy_cstring v [] str post h0 hfit
   simp only [List.append_nil] at h
   cases cfi <;> run_simp [h]
 
@@ -351,7 +351,7 @@ theorem char_result_null (v : Buf) (cfi : Bool) :
   cases cfi <;> run_simp [h]
 
 /-- `std::string` result (by value, `*` or `&`): `take L (s ++ blanks)`, also when `s` is empty -/
-theorem string_result_buf (v : Buf) (s : List Nat) (cfi : Bool) :
+theorem string_result_buf (v : Buf) (s : List Nat) (hs : s.length < 2147483648) (cfi : Bool) :
     runArg Kind.stringResult.fspec (Kind.stringResult.cspec cfi) true (.buf v) (.result (.str s))
       = .ok ⟨none, .buf (fassign v.length s), 0⟩ := by
   have h := strCopy_counted v [] (s ++ [NUL]) s.length (by simp)
@@ -361,8 +361,9 @@ theorem string_result_buf (v : Buf) (s : List Nat) (cfi : Bool) :
   cases s with
   | nil => cases cfi <;> run_simp [hn, fassign]
   | cons a s =>
-    simp at h
-    cases cfi <;> run_simp [h]
+    have hn := narrow32_of_lt _ hs
+    simp at h hn
+    cases cfi <;> run_simp [h, hn]
 
 /-- `char` result: the character, then blanks (`L ≥ 1`) -/
 theorem char_scalar_result_buf (v : Buf) (c : Nat) (hL : 0 < v.length) (cfi : Bool) :
@@ -598,7 +599,8 @@ theorem cfi_independent_char_in (t : Buf) (h0 : ∀ c ∈ t, c ≠ NUL) :
 
 /-- F_CFI off / on for the remaining character kinds: identical outcomes -/
 theorem cfi_independent_partial (t v str post : Buf) (s : List Nat) (f : List Nat → List Nat)
-    (h0 : ∀ c ∈ str, c ≠ NUL) (hv : v.length = (str ++ NUL :: post).length) (c : Nat) (hL : 0 < v.length) :
+    (h0 : ∀ c ∈ str, c ≠ NUL) (hv : v.length = (str ++ NUL :: post).length) (c : Nat) (hL : 0 < v.length)
+    (hfit : str.length < 2147483648) (hs : s.length < 2147483648) (hf : (f (rtrim t)).length < 2147483648) :
     runArg Kind.stringIn.fspec (Kind.stringIn.cspec false) true (.buf t) (.arg id)
       = runArg Kind.stringIn.fspec (Kind.stringIn.cspec true) true (.buf t) (.arg id) ∧
     runArg Kind.stringOut.fspec (Kind.stringOut.cspec false) true (.buf v) (.arg fun _ => .str s)
@@ -619,12 +621,12 @@ theorem cfi_independent_partial (t v str post : Buf) (s : List Nat) (f : List Na
       = runArg Kind.charScalarResult.fspec (Kind.charScalarResult.cspec true) true (.buf v) (.result (.int c)) := by
   refine ⟨?_, ?_, ?_, ?_, ?_, ?_, ?_, ?_⟩
   · rw [string_in_buf, string_in_cfi]
-  · rw [string_out_buf, string_out_cfi]
-  · rw [string_inout_buf, string_inout_cfi]
-  · rw [char_out_buf str post h0 v hv, char_out_cfi str post h0 v hv]
-  · rw [char_inout_buf t str post h0, char_inout_cfi t str post h0]
-  · rw [char_result_buf v str post h0 false, char_result_buf v str post h0 true]
-  · rw [string_result_buf v s false, string_result_buf v s true]
+  · rw [string_out_buf v s hs, string_out_cfi v s hs]
+  · rw [string_inout_buf t f hf, string_inout_cfi t f hf]
+  · rw [char_out_buf str post h0 v hv hfit, char_out_cfi str post h0 v hv hfit]
+  · rw [char_inout_buf t str post h0 hfit, char_inout_cfi t str post h0 hfit]
+  · rw [char_result_buf v str post h0 hfit false, char_result_buf v str post h0 hfit true]
+  · rw [string_result_buf v s hs false, string_result_buf v s hs true]
   · rw [char_scalar_result_buf v c hL false, char_scalar_result_buf v c hL true]
 
 example : ∀ c ∈ [97, 32, 98, 32], c ≠ NUL := by decide
